@@ -74,6 +74,11 @@ func (c *Cluster) httpDial(network, addr string) (net.Conn, error) {
 			if mode == "error" {
 				status = "500 Internal Server Error"
 			}
+			rs := "ok"
+			if mode == "error" {
+				rs = "0x500"
+			}
+			c.w.jl(&journal.Ev{K: journal.KRsp, M: m, Vb: -1, S: "HTTP " + req.Method + " " + req.URL.Path, S2: rs, ID: fmt.Sprintf("%s.n%d|http", tag, node)})
 			_, _ = fmt.Fprintf(sv, "HTTP/1.1 %s\r\nContent-Length: 2\r\nContent-Type: application/json\r\n\r\n{}", status)
 		}
 	}()
